@@ -7,6 +7,11 @@ from core import *
 from algs import ALGS
 import audit as audit_mod
 
+
+def J_is_err(x):
+    return isinstance(x, dict) and "error" in x
+
+
 TRUSTED_BASE = [
     "Lean 4.33 kernel; axioms propext, Classical.choice, Quot.sound only (audited per run with #print axioms)",
     "Lean compiler/runtime for the driver executable (compiled code of the definitions the theorems are about)",
@@ -138,8 +143,10 @@ def impl_map(tasks, serial_below=200):
     cs = max(1, min(16, len(tasks) // 64))
     results = [None] * len(tasks)
     done = [False] * len(tasks)
+    futs = {}
     try:
-        futs = {_POOL.submit(_impl_chunk, tasks[i:i + cs]): i for i in range(0, len(tasks), cs)}
+        for i in range(0, len(tasks), cs):
+            futs[_POOL.submit(_impl_chunk, tasks[i:i + cs])] = i
         for f in as_completed(futs):
             i = futs[f]
             for j, r in enumerate(f.result()):
@@ -341,6 +348,14 @@ class Check:
             else:
                 want = project_model(ans, ot, by_id)
                 same = relation(case, fmt, ot, got, want, by_id) if relation else (got == want)
+            if not same and case["alg"] == "multifit" and not J_is_err(got):
+                # float capacity search in the code, exact rationals in the model: tolerated exactly when a rounding really occurs on this
+                # input, the exact transcription gives the model's answer and the float transcription gives the implementation's
+                from algs import multifit_float_divergence
+                fd = multifit_float_divergence(case, ids_for(fmt, case["vals"], names))
+                if fd is not None and project_model(fd[1], ot, by_id) == want and project_model(fd[0], ot, by_id) == got:
+                    same = True
+                    self.stats[stream]["float-divergence (multifit capacity search; tolerated, DESIGN 3)"] += 1
             if not same:
                 self.disagreements.append({"stream": stream, "alg": case["alg"], "case": case, "fmt": fmt,
                                            "outtype": ot, "impl": got, "model": want, "request": req})
@@ -367,6 +382,8 @@ class Check:
         ids = ids_for(fmt, case["vals"], names)
         ans = model_query([alg.request(case, ids, ot not in SUMS_ONLY, outtype=ot)])[0]
         got = timed(lambda: alg.call_impl(case, fmt, ot, names), limit=20)
+        if isinstance(got, dict) and got.get("error") in ("Timeout", "MemoryError"):
+            return [], got          # a resource limit is never a verdict: this candidate is not kept
         try:
             items_ = judge(case, fmt, ot, got, names, ans)
         except Exception as e:      # noqa
@@ -384,7 +401,7 @@ class Check:
         """greedy delta debugging of a failing case: drop items, then halve values, while a failure of the same kind persists"""
         judge = f.get("_judge")
         case = f["case"]
-        if judge is None or case.get("alg") not in ALGS or f["fmt"] not in FORMATS or f["outtype"] not in OUTTYPES:
+        if judge is None or case.get("alg") not in ALGS or f["fmt"] not in FORMATS + ["uarray"] or f["outtype"] not in OUTTYPES:
             return f
         best, tried, kind = dict(case, vals=list(case["vals"])), 0, f["kind"]
         best_got = f["observed"]
